@@ -134,37 +134,47 @@ def fromRawEntries (max : Nat) (slice : List (BitVec 64)) : R Gdt :=
 def entries (g : Gdt) : R (List (BitVec 64)) :=
   if g.len ≤ g.table.length then .ok (g.table.take g.len) else .panic
 
-/-- `push(&mut self, value)`: `self.table[index] = Entry::new(value)` (bounds check),
-`self.len += 1`, returns the index. -/
-def push (g : Gdt) (value : BitVec 64) : R (Gdt × Nat) :=
+/-- `push(&mut self, value)`: `self.table[index] = Entry::new(value)` (bounds check, which
+precedes the store), `self.len += 1`, returns the index. First component: `self` afterwards. -/
+def push (g : Gdt) (value : BitVec 64) : Gdt × R Nat :=
   let index := g.len
-  if index < g.table.length then .ok (⟨g.max, g.table.set index value, g.len + 1⟩, index)
-  else .panic
+  if index < g.table.length then (⟨g.max, g.table.set index value, g.len + 1⟩, .ok index)
+  else (g, .panic)
 
 /-- `append(&mut self, entry)`: the capacity test (`self.len > self.table.len().saturating_sub(n)`
 → panic), the pushes, then `SegmentSelector::new(index as u16, entry.dpl())`.
-Returns the new table and the selector bits. -/
-def append (g : Gdt) (entry : Descriptor) : R (Gdt × BitVec 16) :=
-  let r : R (Gdt × Nat) :=
+First component: `self` after the call (also when the call panics: mutations made before a panic
+stay); second: the selector bits or the panic. -/
+def append (g : Gdt) (entry : Descriptor) : Gdt × R (BitVec 16) :=
+  let r : Gdt × R Nat :=
     match entry with
     | .user value =>
-      if g.len > g.table.length - 1 then .panic     -- Nat `-` is `saturating_sub`
+      if g.len > g.table.length - 1 then (g, .panic)     -- Nat `-` is `saturating_sub`
       else push g value
     | .system lo hi =>
-      if g.len > g.table.length - 2 then .panic
+      if g.len > g.table.length - 2 then (g, .panic)
       else
         match push g lo with
-        | .panic => .panic
-        | .ok (g1, index) =>
+        | (g1, .panic) => (g1, .panic)
+        | (g1, .ok index) =>
           match push g1 hi with
-          | .panic => .panic
-          | .ok (g2, _) => .ok (g2, index)
+          | (g2, .panic) => (g2, .panic)
+          | (g2, .ok _) => (g2, .ok index)
   match r with
-  | .panic => .panic
-  | .ok (g', index) =>
+  | (g', .panic) => (g', .panic)
+  | (g', .ok index) =>
     match entry.dpl with
-    | .panic => .panic
-    | .ok rpl => .ok (g', SegmentSelector.new (BitVec.ofNat 16 index) rpl)
+    | .panic => (g', .panic)
+    | .ok rpl => (g', .ok (SegmentSelector.new (BitVec.ofNat 16 index) rpl))
+
+/-- A history of appends on one table (continuing after a caught panic, as a caller using
+`catch_unwind` can): final table and the outcome of every call. -/
+def appendAll (g : Gdt) : List Descriptor → Gdt × List (R (BitVec 16))
+  | [] => (g, [])
+  | d :: rest =>
+    let (g', r) := append g d
+    let (g'', rs) := appendAll g' rest
+    (g'', r :: rs)
 
 /-- `limit(&self)`: `(self.len * size_of::<u64>() - 1) as u16` (`usize` arithmetic: the
 subtraction panics/wraps on underflow depending on the build profile; `as u16` truncates). -/
